@@ -1,3 +1,151 @@
 import GnpyModel
-/- Property theorems for C16 (only the property theorems and their non-vacuity examples live here;
-   helper lemmas go to GnpyProofs/Lemmas). -/
+import GnpyProofs.RealInst
+import Mathlib.Data.List.Basic
+import Mathlib.Data.List.Perm.Basic
+import Mathlib.Tactic.Linarith
+/- Property theorems for C16 — each request's result is independent of the other requests in the batch.
+   Model: GnpyModel/Plan.lean.
+   What a theorem cannot show: whether the Python objects are REALLY copied (aliasing through deepcopy, shared
+   library dicts, class attributes).  `edfa_state_leaks` shows that the property rests on that copy; the copy itself
+   is covered by the correspondence check and the monitor only (level: partial for run-time aliasing). -/
+namespace Gnpy.Plan
+
+variable {Settings Request Result Slots SlotOut : Type}
+
+/-- **plan_results_pointwise**: in any batch, the result of request `i` is what `computeOne` gives for that request
+with the given settings — i.e. exactly the result of the batch that contains this request alone, whatever comes
+before or after it (dense-comb, saturating, blocked, failing requests included) and whatever the slot state -/
+theorem plan_results_pointwise (P : Pipeline Settings Request Result Slots SlotOut) (st : Settings) (s0 s0' : Slots)
+    (reqs : List Request) :
+    (plan P st s0 reqs).results = reqs.map (P.computeOne st) ∧
+    ∀ i (hi : i < reqs.length), (plan P st s0 reqs).results[i]? = (plan P st s0' [reqs[i]]).results[0]? := by
+  refine ⟨rfl, ?_⟩
+  intro i hi
+  simp [plan, hi]
+
+/-- first, last, or in between: prepending and appending other requests does not change a request's result -/
+theorem plan_result_context (P : Pipeline Settings Request Result Slots SlotOut) (st : Settings) (s0 : Slots)
+    (before after : List Request) (r : Request) :
+    (plan P st s0 (before ++ r :: after)).results[before.length]? = some (P.computeOne st r) := by
+  simp [plan]
+
+/-- **plan_perm**: permuting the batch permutes the results in the same way (only the slot outcomes may change) -/
+theorem plan_perm (P : Pipeline Settings Request Result Slots SlotOut) (st : Settings) (s0 : Slots)
+    (reqs reqs' : List Request) (h : reqs.Perm reqs') :
+    ((plan P st s0 reqs).results).Perm ((plan P st s0 reqs').results) ∧
+    (reqs.zip (plan P st s0 reqs).results).Perm (reqs'.zip (plan P st s0 reqs').results) := by
+  constructor
+  · exact List.Perm.map _ h
+  · have e : ∀ l : List Request, l.zip (plan P st s0 l).results = l.map (fun r => (r, P.computeOne st r)) := by
+      intro l
+      induction l with
+      | nil => rfl
+      | cons x xs ih =>
+        simp only [plan, List.map_cons, List.zip_cons_cons] at ih ⊢
+        rw [ih]
+    rw [e, e]; exact List.Perm.map _ h
+
+/-- computing a batch leaves the settings unchanged -/
+theorem plan_leaves_settings (P : Pipeline Settings Request Result Slots SlotOut) (st : Settings) (s0 : Slots)
+    (reqs : List Request) : (plan P st s0 reqs).settings = st := rfl
+
+/-! ### the amplifier machine: what the deep copy protects -/
+
+/-- **copy_leaves_settings**: propagation on a copy returns the network as it was -/
+theorem copy_leaves_settings (net : List (ℝ × Edfa ℝ)) (p : ℝ) : (propagateOnCopy net p).1 = net := rfl
+
+theorem planCopy_spec (net : List (ℝ × Edfa ℝ)) (ps : List ℝ) :
+    (planCopy net ps).1 = net ∧ (planCopy net ps).2 = ps.map (fun p => (propagate net p).2) := by
+  induction ps with
+  | nil => simp [planCopy]
+  | cons p rest ih => simp [planCopy, propagateOnCopy, ih.1, ih.2]
+
+/-- with the copy, the batch is an instance of the pipeline: pointwise results, settings unchanged -/
+theorem planCopy_pointwise (net : List (ℝ × Edfa ℝ)) (before after : List ℝ) (p : ℝ) :
+    (planCopy net (before ++ p :: after)).2[before.length]? = some (planCopy net [p]).2[0]! ∧
+    (planCopy net (before ++ p :: after)).1 = net := by
+  rw [(planCopy_spec net _).2, (planCopy_spec net _).1, (planCopy_spec net [p]).2]
+  simp
+
+/-- the clamp never raises the stored gain: once clamped, an amplifier stays clamped for whoever comes next -/
+theorem effGain_antitone (e : Edfa ℝ) (pin : ℝ) : (e.call pin).1.effGain ≤ e.effGain ∧ (e.call pin).1.pMax = e.pMax := by
+  simp only [Edfa.call]
+  constructor
+  · split
+    · exact le_refl _
+    · rename_i h; exact le_of_lt (not_le.1 h)
+  · trivial
+
+/-- an unsaturated call leaves the amplifier as it was -/
+theorem call_unsaturated (e : Edfa ℝ) (pin : ℝ) (h : pin + e.effGain ≤ e.pMax) : (e.call pin).1 = e := by
+  have : e.effGain ≤ e.pMax - pin := by linarith
+  simp [Edfa.call, this]
+
+/-- a saturating call lowers the stored gain strictly -/
+theorem call_saturated (e : Edfa ℝ) (pin : ℝ) (h : e.pMax < pin + e.effGain) : (e.call pin).1.effGain < e.effGain := by
+  have : ¬ e.effGain ≤ e.pMax - pin := by intro hc; linarith
+  simp only [Edfa.call, this, if_false]
+  linarith
+
+/-- **edfa_state_leaks**: without the copy the property fails.  One amplifier (gain 20 dB, p_max 21 dBm) after 10 dB
+of loss: a saturating request (+15 dBm) followed by a light one (0 dBm).  Sharing the amplifier object, the light
+request leaves at +6 dBm; alone (or with the copy) it leaves at +10 dBm; and the network is left changed. -/
+theorem edfa_state_leaks :
+    (planShared [((10:Int), ({ effGain := 20, pMax := 21 } : Edfa Int))] [15, 0]).2 = [21, 6] ∧
+    (planShared [((10:Int), ({ effGain := 20, pMax := 21 } : Edfa Int))] [0]).2 = [10] ∧
+    (planCopy [((10:Int), ({ effGain := 20, pMax := 21 } : Edfa Int))] [15, 0]).2 = [21, 10] ∧
+    ((planShared [((10:Int), ({ effGain := 20, pMax := 21 } : Edfa Int))] [15, 0]).1.map (·.2.effGain)) = [16] ∧
+    ((planCopy [((10:Int), ({ effGain := 20, pMax := 21 } : Edfa Int))] [15, 0]).1.map (·.2.effGain)) = [20] := by
+  decide
+
+/-- the same over ℝ for ANY single amplifier that the first request saturates and the second does not: the second
+request's output differs from its output alone -/
+theorem shared_differs (loss g pmax p1 p2 : ℝ) (hsat : pmax < p1 - loss + g) (hun : p2 - loss + g ≤ pmax)
+    (hp : p2 < p1) :
+    (planShared [(loss, ({ effGain := g, pMax := pmax } : Edfa ℝ))] [p1, p2]).2 ≠
+      [(propagate [(loss, ({ effGain := g, pMax := pmax } : Edfa ℝ))] p1).2,
+       (propagate [(loss, ({ effGain := g, pMax := pmax } : Edfa ℝ))] p2).2] := by
+  have h1 : ¬ g ≤ pmax - (p1 - loss) := by intro hc; linarith
+  have h2 : g ≤ pmax - (p2 - loss) := by linarith
+  have h3 : pmax - (p1 - loss) ≤ pmax - (p2 - loss) := by linarith
+  simp only [planShared, propagate, Edfa.call, h1, h2, h3, if_true, if_false]
+  intro hc
+  simp only [List.cons.injEq, and_true, true_and] at hc
+  linarith
+
+/-- no amplifier of the line clamps for launch power `p` -/
+def Unsat : List (ℝ × Edfa ℝ) → ℝ → Prop
+  | [], _ => True
+  | (loss, e) :: rest, p => p - loss + e.effGain ≤ e.pMax ∧ Unsat rest (p - loss + e.effGain)
+
+theorem propagate_unsaturated (net : List (ℝ × Edfa ℝ)) (p : ℝ) (h : Unsat net p) : (propagate net p).1 = net := by
+  induction net generalizing p with
+  | nil => rfl
+  | cons x rest ih =>
+    obtain ⟨loss, e⟩ := x
+    obtain ⟨h1, h2⟩ := h
+    have hc : e.effGain ≤ e.pMax - (p - loss) := by linarith
+    simp only [propagate, Edfa.call, hc, if_true]
+    rw [ih _ h2]
+
+/-- the copy is needed exactly because of the clamp: when no request of the batch drives any amplifier into its
+clamp, sharing the objects gives the same results and leaves the network as it was -/
+theorem planShared_eq_planCopy_of_unsaturated (net : List (ℝ × Edfa ℝ)) (ps : List ℝ) (h : ∀ p ∈ ps, Unsat net p) :
+    planShared net ps = planCopy net ps := by
+  induction ps with
+  | nil => rfl
+  | cons p rest ih =>
+    have hp := propagate_unsaturated net p (h p (by simp))
+    have hrest := ih (fun q hq => h q (List.mem_cons_of_mem _ hq))
+    simp only [planShared, planCopy, propagateOnCopy]
+    have : propagate net p = (net, (propagate net p).2) := Prod.ext hp rfl
+    rw [this]
+    simp only [hrest]
+
+/-! ### non-vacuity -/
+example : (plan (⟨fun (s : Nat) (r : Nat) => s + r, fun (sl : Nat) x => (sl + 1, sl)⟩ : Pipeline Nat Nat Nat Nat Nat)
+    5 0 [1, 2, 3]).results = [6, 7, 8] := by decide
+example : (plan (⟨fun (s : Nat) (r : Nat) => s + r, fun (sl : Nat) x => (sl + 1, sl)⟩ : Pipeline Nat Nat Nat Nat Nat)
+    5 0 [1, 2, 3]).slotOuts = [0, 1, 2] := by decide
+
+end Gnpy.Plan
